@@ -101,8 +101,7 @@ def main():
     rng = scen.Rng(args["seed"])
     n = (1500 if args["tier"] == "thorough" else 200) * args["budget"]
     seeds += [rng.next() for _ in range(n)]
-    with ThreadPoolExecutor(max_workers=12) as ex:
-        list(ex.map(lambda s: one(s, model, rep), seeds))
+    scen.run_cases(lambda s: one(s, model, rep), seeds, rep, 12)
     scen.finish(args, rep, t0, model)
 
 
